@@ -378,9 +378,14 @@ def handle_result(ctx, inp, cfg, res, mixed):
                           dict(rep, diffs=res["diffs"][:5], correspondence="ph_trace views vs pmodel route"),
                           found_input=True)
         return
+    no_nl = users_without_newline(inp)
     for key, text in res["oracle"]:
         m = __import__("re").match(r"sel (\d+):", text)
         n_user = int(m.group(1)) if m else None
+        if key in ("sel-string-rows", "sel-file-rows") and n_user in no_nl:
+            # `-new_line false` / NO_NEWLINE$ ask for several records on one text line: the number of text lines is then
+            # not the number of table rows by request; string = file and lines = split(string) are still judged
+            continue
         if key in ("sel-string-rows", "sel-file-rows") and "INVERSE_MODELING" in inp and "-inverse_modeling true" in inp:
             # punch_model never signals end-of-row: file/string rows > table rows (known finding, see known_findings.txt)
             ctx.finding("inverse-rows-not-in-table", text, dict(rep, oracle=res["oracle"][:5]))
@@ -392,6 +397,25 @@ def handle_result(ctx, inp, cfg, res, mixed):
             ctx.violation("model and code agree but the property's relation fails: " + text,
                           dict(rep, oracle=res["oracle"][:5]))
             return
+
+
+def users_without_newline(inp):
+    """user numbers whose SELECTED_OUTPUT block says `-new_line false` or whose USER_PUNCH program punches NO_NEWLINE$"""
+    import re
+    out = set()
+    cur = None
+    for line in inp.splitlines():
+        t = line.strip()
+        m = re.match(r"(SELECTED_OUTPUT|USER_PUNCH)\s*(-?\d+)?", t, re.I)
+        if m:
+            cur = int(m.group(2)) if m.group(2) else 1
+            continue
+        if re.match(r"[A-Z_]{3,}\b", t) and not t.startswith("-") and not re.match(r"\d", t):
+            if not re.match(r"(-|\d)", t) and t.split()[0].isupper() and t.split()[0] not in ("PUNCH",):
+                cur = None
+        if cur is not None and (re.search(r"-new_line\s+f", t, re.I) or "NO_NEWLINE$" in t.upper()):
+            out.add(cur)
+    return out
 
 
 def cfg_json(cfg):
